@@ -133,6 +133,14 @@ def c11Check (U : Universe) (P : Problem) (events : List String) (known : List N
       | _ => go rest names doneC
   go events (namesOfDeps U P.reqs P.constraints) known
 
+/-- within one solve every repeated request counts, answered or still in flight -/
+def dupWithin (calls : List String) : Option String :=
+  let rec go : List String → List String → Option String
+    | [], _ => none
+    | c :: rest, seen =>
+      if c.startsWith "c" || c.startsWith "d" then (if seen.contains c then some c else go rest (c :: seen)) else go rest seen
+  go calls []
+
 /-- A provider request repeated although its answer had already been obtained. In asynchronous
     logs `C<n>` / `D<s>` mark the moment the provider's future returned its answer (a request
     abandoned by cancellation may legitimately be issued again); in synchronous logs a request is
